@@ -52,18 +52,19 @@ type rec struct {
 }
 
 type world struct {
-	kind    string
-	under   *stores.Opened
-	subMem  *ebu.MemoryStore // separate subscription store, when used
-	faults  *stores.Faults
-	bus     *ebu.EventBus
-	epoch   int
-	log     []rec
-	nextID  int
-	subbed  map[int]bool
-	inSub   int // subscription id whose SubscribeWithReplay is running (-1 none)
-	opsSeen int
-	foreign map[int]bool
+	kind      string
+	under     *stores.Opened
+	subMem    *ebu.MemoryStore // separate subscription store, when used
+	faults    *stores.Faults
+	bus       *ebu.EventBus
+	epoch     int
+	log       []rec
+	nextID    int
+	subbed    map[int]bool
+	inSub     int // subscription id whose SubscribeWithReplay is running (-1 none)
+	opsSeen   int
+	foreign   map[int]bool
+	nestDepth int
 }
 
 func (w *world) newBus() {
@@ -114,8 +115,13 @@ func (w *world) publish(typ int, foreign bool) {
 	}
 	ops := w.faults.Snapshot()
 	for _, op := range ops[before:] {
-		if op.Kind == "append" && !op.Err && !op.Dead {
-			w.log = append(w.log, rec{K: "append", EID: id, T: typ, Off: op.Res, OK: true, Epoch: w.epoch, Fgn: foreign})
+		if op.Kind == "append" && !op.Dead {
+			// the first append after the call began is this publish's own (persistence precedes
+			// dispatch); later ones belong to publishes made from inside its handlers
+			if !op.Err {
+				w.log = append(w.log, rec{K: "append", EID: id, T: typ, Off: op.Res, OK: true, Epoch: w.epoch, Fgn: foreign})
+			}
+			break
 		}
 	}
 }
@@ -127,6 +133,20 @@ func (w *world) deliver(s, id, typ int) {
 	w.log = append(w.log, rec{K: "deliver", S: s, EID: id, T: typ, Epoch: w.epoch})
 }
 
+// maybeNested: in the live phase a handler sometimes publishes a further event of its own type
+// from inside the delivery (same goroutine).
+func (w *world) maybeNested(s, id, typ int) {
+	// only the subscription that is alone on its event type: with two subscriptions of one type a
+	// nested synchronous publish reaches the second subscriber before the outer event does, which is
+	// how re-entrant synchronous dispatch works and is outside this property's histories
+	if w.inSub >= 0 || w.nestDepth > 0 || id%4 != 0 || w.faults.IsDead() || s != 2 {
+		return
+	}
+	w.nestDepth++
+	w.publish(typ, false)
+	w.nestDepth--
+}
+
 func (w *world) subscribe(s int) error {
 	w.inSub = s
 	defer func() { w.inSub = -1 }()
@@ -135,9 +155,9 @@ func (w *world) subscribe(s int) error {
 	var err error
 	switch subType[s] {
 	case 0:
-		err = ebu.SubscribeWithReplay(ctx, w.bus, id, func(e tA) { w.deliver(s, e.ID, 0) })
+		err = ebu.SubscribeWithReplay(ctx, w.bus, id, func(e tA) { w.deliver(s, e.ID, 0); w.maybeNested(s, e.ID, 0) })
 	case 1:
-		err = ebu.SubscribeWithReplay(ctx, w.bus, id, func(e tB) { w.deliver(s, e.ID, 1) })
+		err = ebu.SubscribeWithReplay(ctx, w.bus, id, func(e tB) { w.deliver(s, e.ID, 1); w.maybeNested(s, e.ID, 1) })
 	}
 	return err
 }
@@ -257,11 +277,15 @@ func check(r *result, f faultSpec, durable bool) (sig, desc string) {
 	evType := map[int]int{}
 	foreign := map[int]bool{}
 	n := 0
+	for _, op := range r.ops { // the store's own order of successful appends
+		if op.Kind == "append" && !op.Err && !op.Dead && op.Res != "" {
+			n++
+			pos[op.Res] = n
+		}
+	}
 	for _, x := range r.log {
 		if x.K == "append" {
-			n++
-			pos[x.Off] = n
-			evPos[x.EID] = n
+			evPos[x.EID] = pos[x.Off]
 			evType[x.EID] = x.T
 			foreign[x.EID] = x.Fgn
 		}
@@ -393,7 +417,7 @@ func TestC12(t *testing.T) {
 		kind string
 		n    int
 	}
-	cfgs := []cfg{{"memory", run.Scale(10, 120)}, {"memory+memsub", run.Scale(6, 60)}, {"memory-paged+memsub", run.Scale(6, 60)}, {"sqlite-file", run.Scale(1, 8)}, {"sqlite-batch2", run.Scale(1, 6)}, {"durable+memsub", run.Scale(1, 4)}}
+	cfgs := []cfg{{"memory", run.Scale(10, 120)}, {"memory+memsub", run.Scale(6, 60)}, {"memory-paged+memsub", run.Scale(6, 60)}, {"memory-capped+memsub", run.Scale(5, 50)}, {"sqlite-file", run.Scale(1, 8)}, {"sqlite-batch2", run.Scale(1, 6)}, {"durable+memsub", run.Scale(1, 4)}}
 	caseNo := 0
 	for _, c := range cfgs {
 		for h := 0; h < c.n; h++ {
